@@ -63,7 +63,12 @@ func relayCase(c string) string {
 	base := relayCounterValues(target)
 	clk := &clock.Clock{Instant: time.Unix(0, 0), TickerCh: make(chan time.Time)}
 	clock.ClockInstance = clk
-	r, err := relay.NewRelay(promslog.NewNopLogger(), target, uint(plen))
+	// who listens to the log must not change what is relayed: half of the cases run with the debug level enabled
+	lg := promslog.NewNopLogger()
+	if len(c)%2 == 0 {
+		lg = debugLogger
+	}
+	r, err := relay.NewRelay(lg, target, uint(plen))
 	if err != nil {
 		return "ERR relay " + err.Error()
 	}
